@@ -336,6 +336,13 @@ def native_check(c, kwargs, extra_env=None, universe=None):
         e2["result"] = result
         try:
             ok = eval(code, _g(e2))
+        except AttributeError as e:
+            if ".g_" in str(e) or "'g_" in str(e):
+                # a clause about GHOST state (no such attribute on the real objects): it cannot be judged natively and is left out --
+                # it must not be mistaken for a clause that fails
+                continue
+            ok = False
+            nm = "%s (spec evaluation raised %r)" % (nm, e)
         except Exception as e:
             ok = False
             nm = "%s (spec evaluation raised %r)" % (nm, e)
